@@ -1864,13 +1864,20 @@ impl From<crate::lossy::Relation> for Relation {
             builder = builder.archqual(&archqual);
         }
 
+        // (the builder writes no list for no architectures; a list that is
+        // present but empty is written "[]", as the lossy value prints it)
+        let empty_architectures = matches!(&relation.architectures, Some(a) if a.is_empty());
         if let Some(architectures) = relation.architectures {
             builder = builder.architectures(architectures);
         }
 
         builder = builder.profiles(relation.profiles);
 
-        builder.build()
+        let mut ret = builder.build();
+        if empty_architectures {
+            ret.set_architectures(std::iter::empty());
+        }
+        ret
     }
 }
 
